@@ -81,6 +81,13 @@ class RangeV:
     def __init__(self, lo, hi, step=1):
         self.lo, self.hi, self.step = lo, hi, step
 
+    def as_symseq(self):
+        """the range as a sequence of symbolic length (for comprehensions over it)"""
+        lo, hi = self.lo, self.hi
+        if self.step == 1:
+            return SymSeq(ops.maximum(ops.sub(hi, lo), 0), lambda k: ops.add(lo, k))
+        return SymSeq(ops.maximum(ops.sub(lo, hi), 0), lambda k: ops.sub(lo, k))
+
 
 def b_range(I, *a):
     a = [_scalar(x) for x in a]
@@ -530,7 +537,12 @@ def t_is_complex(I, x):
 
 
 def t_flip(I, x, dims):
-    return T.flip(x, list(dims))
+    r = T.flip(x, list(dims))
+    if T.is_conc_shape(r.shape) and r.ndim > 0:
+        # torch.flip returns a COPY (never a view): its elements are read now, so a later in-place
+        # write to the base of `x` (t[:2, :2] = torch.flip(t[:2, :2], ...)) does not reach it
+        return T.freeze(r)
+    return r
 
 
 def t_tensor(I, data, dtype=None, device=None):
@@ -607,6 +619,7 @@ def tensor_method(I, t: T.LamTensor, name: str, args, kwargs):
     if name == "fill_":
         v = _scalar(args[0])
         t.fn = lambda *i: v
+        t.version += 1
         I.ctx.log_write(("tensor", t.tid), "*")
         return t
     if name == "unbind":
